@@ -220,6 +220,7 @@ type world struct {
 	r      *rng
 	in     *interner
 	mock   *testutils.MockDataplane
+	nft    bool // BackendMode nft (iptables-nft workarounds) over the mock in nft mode
 	strict bool // own restore executor: delete-by-value removes the FIRST match (iptables); else MockDataplane's executor
 	// fault probabilities (per mille) for the current Apply
 	pSave, pRest, pMid int
@@ -576,6 +577,10 @@ func mentions(input string) []string {
 }
 
 func (w *world) newTable(appendMode bool) *iptables.Table {
+	backend := "legacy"
+	if w.nft {
+		backend = "nft"
+	}
 	mode := "insert"
 	if appendMode {
 		mode = "append"
@@ -587,7 +592,7 @@ func (w *world) newTable(appendMode bool) *iptables.Table {
 		SleepOverride:            w.mock.Sleep,
 		NowOverride:              w.mock.Now,
 		InsertMode:               mode,
-		BackendMode:              "legacy",
+		BackendMode:              backend,
 		LookPathOverride:         testutils.LookPathAll,
 		OpRecorder:               logrusr.NewSummarizer("verif"),
 	})
@@ -653,7 +658,8 @@ func oneCase(seed uint64, idx int, maxOps int) line {
 		}
 	}
 
-	w := &world{r: r, in: in, strict: strict, pool: &pool, tags: tags}
+	nft := r.intn(4) == 0
+	w := &world{r: r, in: in, strict: strict, nft: nft, pool: &pool, tags: tags}
 
 	// starting kernel
 	k0 := map[string][]string{}
@@ -721,7 +727,14 @@ func oneCase(seed uint64, idx int, maxOps int) line {
 	}
 	k0coq := in.kernel(k0)
 
-	w.mock = testutils.NewMockDataplane("filter", copyChains(k0), "legacy")
+	backend := "legacy"
+	if nft {
+		backend = "nft"
+		tags["backend:nft"] = true
+	} else {
+		tags["backend:legacy"] = true
+	}
+	w.mock = testutils.NewMockDataplane("filter", copyChains(k0), backend)
 	table := w.newTable(appendMode)
 	dead := false
 	isForce := map[string]bool{}
@@ -922,8 +935,8 @@ func oneCase(seed uint64, idx int, maxOps int) line {
 			}
 		}
 	}
-	cfg := fmt.Sprintf("{| cf_prefixes := [%s]; cf_append := %v; cf_kchains := [%s]; cf_fix := %v |}",
-		joinQ(rulesdefs.AllHistoricChainNamePrefixes), appendMode, joinQ(kchain), leakFixed)
+	cfg := fmt.Sprintf("{| cf_prefixes := [%s]; cf_append := %v; cf_kchains := [%s]; cf_fix := %v; cf_nft := %v |}",
+		joinQ(rulesdefs.AllHistoricChainNamePrefixes), appendMode, joinQ(kchain), leakFixed, nft)
 	coq := fmt.Sprintf("{| c_cfg := %s; c_dall := %v; c_k0 := %s; c_ops := [%s]; c_obs := [%s] |}",
 		cfg, !strict, k0coq, strings.Join(ops, "; "), strings.Join(obs, "; "))
 	if appendMode {
